@@ -940,9 +940,14 @@ class FileHashStore(HashStore):
                         # Mark metadata doc for deletion, unless another caller has
                         # deleted it since the directory was listed
                         if os.path.isfile(path):
-                            objects_to_delete.append(
-                                self._rename_path_for_deletion(path)
-                            )
+                            try:
+                                objects_to_delete.append(
+                                    self._rename_path_for_deletion(path)
+                                )
+                            except FileNotFoundError:
+                                # A deletion marker of a concurrent delete, removed
+                                # by its owner in the meantime: nothing left to do
+                                pass
                     finally:
                         # Release pid
                         end_sync_debug_msg = (
